@@ -252,8 +252,10 @@ class Bench:
 
     def equipment(self, modes, sys_margins):
         from gnpy.tools.json_io import _equipment_from_json, DEFAULT_EXTRA_CONFIG
-        ej = copy.deepcopy(self.ej)
-        ej['Transceiver'] = [t for t in ej['Transceiver'] if t['type_variety'] != TRX]
+        # the loader rewrites Transceiver entries only (measured): everything else can be shared between calls
+        ej = dict(self.ej)
+        ej['SI'] = copy.deepcopy(self.ej['SI'])
+        ej['Transceiver'] = copy.deepcopy([t for t in self.ej['Transceiver'] if t['type_variety'] != TRX])
         ej['Transceiver'].append({'type_variety': TRX, 'frequency': {'min': 191.35e12, 'max': 196.1e12},
                                   'mode': copy.deepcopy(modes)})
         if sys_margins is not None:
@@ -338,7 +340,7 @@ class Bench:
             eq = self.equipment([m], None)
             req = requests_from_json({'path-request': [service('solo', src, dst, 'solo', False, spacing)]}, eq)[0]
             p = self.path(src, dst, spacing, via)
-            p = copy.deepcopy(find_reversed_path(p) if direction else p)
+            p = fresh_copy(find_reversed_path(p) if direction else p)
             with RxRecorder() as rec:
                 propagate(p, req, eq)
             evs = rec.take()
@@ -346,6 +348,14 @@ class Bench:
                 raise Machinery(f'pristine propagation of {src}->{dst} recorded {len(evs)} receiver evaluations')
             self._pristine[key] = evs[0]
         return self._pristine[key]
+
+
+def fresh_copy(path):
+    """fresh copies of the elements of a path (what propagation reads and writes); the OMS bookkeeping objects the
+    elements point to (spectrum assignment, not touched by propagation) are shared instead of being copied with the
+    whole network they reference"""
+    memo = {id(el.oms): el.oms for el in path if hasattr(el, 'oms')}
+    return copy.deepcopy(path, memo)
 
 
 def line_topology(sites, hops):
